@@ -55,6 +55,9 @@ class SMMapSetMeta:
                 continue
             if not s[0].startswith("#"):
                 s[0] = s[0][s[0].rfind("#") :]
+            # The value is everything after the tag's colon, further colons included
+            if len(s) > 2:
+                s = [s[0], line.split(":", 1)[1].strip()]
 
             if s[0] == "#TITLE":
                 self.title = s[1].strip()
